@@ -28,11 +28,12 @@ pub fn def() -> CheckDef {
         runs_quick: 250_000,
         runs_thorough: 5_000_000,
         rule: "seeded histories on cfb_mode/cfb8 Encryptor/Decryptor and OfbCore (as block encryptor, decryptor, keystream core), on the AsyncStreamCipher one-shots with a partial tail, on BufEncryptor/BufDecryptor with arbitrary chunking and state export/import, and on the Ofb byte stream; harness cipher with both directions or encrypt-only (block sizes 1,2,3,8,16,17,255; width per call from {1,2,3,5,8}) or AES-128/Magma/BelT; compared step by step with the reference recurrences; seam trace must contain no decrypt-direction block. distinct = distinct (mode, front end, block size, cipher, policy, op-kind/form/size-class sequence); non-trivial = processed >= 1 byte",
-        required_probes: &["par_groups_then_tail", "bs1", "bs255", "enc_only_cipher", "async_partial_tail", "buf_mid_block_piece", "buf_long_call", "buf_restart_mid_block", "ofb_stream_partial", "cfb8_bs_not_16", "script_call"],
+        required_probes: &["par_groups_then_tail", "bs1", "bs255", "enc_only_cipher", "async_partial_tail", "buf_mid_block_piece", "buf_long_call", "buf_restart_mid_block", "ofb_stream_partial", "cfb8_bs_not_16", "script_call", "core_one_shot"],
         r#gen,
         exec,
         components: "real code: cfb-mode, cfb8, ofb crates, cipher's BlockMode*/AsyncStreamCipher/StreamCipherCoreWrapper front ends; stub: block cipher (SimCipher / SimCipherEnc) in most runs, real AES-128/Magma/BelT in the rest; oracle: reference recurrences in sim/src/model.rs plus the recorded seam trace",
         assumptions: &["reference model and toy permutation are correct (self-tested at start-up)", "cipher/inout/hybrid-array crates are trusted", "sampling, not proof"],
+        nondet_is_violation: false,
     }
 }
 
@@ -86,12 +87,16 @@ fn r#gen(rng: &mut Rng, thorough: bool) -> Scn {
         let core = rng.chance(1, 2);
         s.set_num("front", core as u128);
         let nops = 1 + rng.usize(maxops);
-        for _ in 0..nops {
+        for i in 0..nops {
             if core {
                 match rng.below(10) {
                     0 => s.ops.push(Op::new("restart")),
                     1 => s.ops.push(Op::new("clone")),
                     _ => s.ops.push(Op::new("ks").n(rng.nblocks(20, w)).via(rng.below(N_KS_VIA as u64) as u8).p(rng.next() as u128)),
+                }
+                if i + 1 == nops && rng.chance(1, 3) {
+                    // close with the consuming one-shot of the core (any byte length)
+                    s.ops.push(Op::new("partial").n(rng.nbytes(6 * s.bs as u64, s.bs as u64)).via(rng.below(2) as u8));
                 }
             } else {
                 match rng.below(10) {
@@ -246,10 +251,11 @@ fn exec(scn: &Scn, ctx: &mut Ctx) -> Verdict {
         }
         "ofb" => {
             let total: usize = scn.ops.iter().filter(|o| o.k == "ks").map(|o| o.n as usize).sum();
-            if total > 4096 {
+            let tailn: usize = scn.ops.iter().filter(|o| o.k == "partial").map(|o| o.n as usize).sum();
+            if total > 4096 || tailn > 1 << 14 {
                 invalid!("too long");
             }
-            let input = scn.bytes(0, total * bs);
+            let input = scn.bytes(0, total * bs + tailn);
             let (want, _) = model_run(scn, &input);
             let mut obj = match make_core("ofb", bs, scn.cipher, &scn.key, &scn.iv, 0, 0) {
                 Ok(o) => o,
@@ -279,6 +285,27 @@ fn exec(scn: &Scn, ctx: &mut Ctx) -> Verdict {
                             violation!("output", "op {} (ks {} blocks via {}): keystream block {} differs", i, op.n, via, done / bs + d);
                         }
                         done += n;
+                    }
+                    "partial" => {
+                        if i + 1 != scn.ops.len() {
+                            invalid!("partial must be last");
+                        }
+                        let n = op.n as usize;
+                        let mut out = scn.dirt(done, n);
+                        let mark = env_mark();
+                        let r = obj.partial(op.via % 2 == 1, &input[done..done + n], &mut out);
+                        if let Some(d) = seam_ok(mark) {
+                            violation!("decrypt_direction", "op {}: decrypt-direction cipher call ({})", i, d);
+                        }
+                        ctx.probe("core_one_shot");
+                        if r.is_err() {
+                            violation!("apply_err", "op {}: OfbCore one-shot on {} bytes failed", i, n);
+                        }
+                        if out != want[done..done + n] {
+                            let d = first_diff(&out, &want[done..done + n]);
+                            violation!("output", "op {} (one-shot apply_keystream_partial on {} bytes after {} blocks): byte {} differs from the recurrence", i, n, done / bs, d);
+                        }
+                        return Verdict::Ok;
                     }
                     "restart" => {
                         let st = obj.export().unwrap();
